@@ -477,6 +477,12 @@ func (c *RetryClient) Retry(ctx context.Context) {
 				c.newRetryByError = true
 				break
 			}
+			if c.newRetryByError {
+				// A queued request failed on its first transmission and queued itself for retry.
+				// Keep the remaining requests behind it to preserve the order.
+				c.retryQueue = append(c.retryQueue, oldRetryQueue[i+1:]...)
+				break
+			}
 		}
 	})
 }
